@@ -157,3 +157,122 @@ Proof.
   - destruct (clust_get p (ss_clust s)); auto.
   - destruct (vis_get oid (ss_vis s)); auto. destruct (find_hog fo oid); auto.
 Qed.
+
+(* ---------- the genome listings: the extant one never changes, the ancestral one only gains internal nodes ---------- *)
+Lemma sub_rev_app t a : forall b, sub_rev t (a ++ b) = match sub_rev t a with Some c => sub_rev c b | None => None end.
+Proof.
+  revert t. induction a as [|k a IH]; intros t b; cbn [app sub_rev]; [reflexivity|].
+  destruct (nth_error (skids t) k) as [c|]; [apply IH|reflexivity].
+Qed.
+
+Lemma sub_app t s a : sub t (s ++ a) = match sub t a with Some c => sub_rev c (rev s) | None => None end.
+Proof. unfold sub. rewrite rev_app_distr. apply sub_rev_app. Qed.
+
+Lemma valid_suffix t s a : valid t (s ++ a) = true -> valid t a = true.
+Proof. unfold valid. rewrite sub_app. destruct (sub t a); [reflexivity|discriminate]. Qed.
+
+Lemma leaf_no_extension t s a : valid t (s ++ a) = true -> is_leaf t a = true -> s = [].
+Proof.
+  unfold valid, is_leaf. rewrite sub_app. destruct (sub t a) as [c|]; [|discriminate]. intros Hv Hl.
+  destruct (rev s) as [|k r] eqn:Er.
+  - apply (f_equal (@rev nat)) in Er. rewrite rev_involutive in Er. exact Er.
+  - cbn [sub_rev] in Hv. unfold sleaf in Hl. destruct (skids c); [|discriminate]. destruct k; discriminate.
+Qed.
+
+Lemma mem_tax_in p gs : mem_tax p gs = true <-> In p gs.
+Proof.
+  unfold mem_tax. rewrite existsb_exists. split.
+  - intros (x & Hx & E). apply taxon_eqb_eq in E. subst. exact Hx.
+  - intros H. exists p. split; [exact H|apply taxon_eqb_refl].
+Qed.
+
+Definition anc_node (t : stree) (p : taxon) : Prop := is_leaf t p = false /\ valid t p = true.
+
+Lemma lateral_genome_shape t g1 g2 gs :
+  valid t g1 = true -> In g1 gs ->
+  exists extra, add_genome (lcs g1 g2) gs = gs ++ extra /\ Forall (anc_node t) extra.
+Proof.
+  intros Hv Hin. unfold add_genome. destruct (mem_tax (lcs g1 g2) gs) eqn:Em.
+  - exists []. rewrite app_nil_r. auto.
+  - exists [lcs g1 g2]. split; [reflexivity|]. constructor; [|constructor].
+    destruct (lcs_is_suffix_l g1 g2) as (s & Es). split.
+    + destruct (is_leaf t (lcs g1 g2)) eqn:El; [|reflexivity]. exfalso.
+      rewrite Es in Hv. pose proof (leaf_no_extension t s _ Hv El) as ->. cbn [app] in Es.
+      rewrite <- Es in Em. apply mem_tax_in in Hin. congruence.
+    + rewrite Es in Hv. apply valid_suffix in Hv. exact Hv.
+Qed.
+
+Lemma profile_genome_shape t (l : list (taxon * stree)) :
+  Forall (fun pn => valid t (fst pn) = true) l -> forall gs,
+  exists extra, fold_left (fun gs pn => if is_leaf t (fst pn) then gs else add_genome (fst pn) gs) l gs = gs ++ extra /\
+                Forall (anc_node t) extra.
+Proof.
+  induction l as [|pn r IH]; intros Hl gs; cbn [fold_left].
+  - exists []. rewrite app_nil_r. auto.
+  - inversion Hl as [|? ? Hv Hr]; subst. destruct (is_leaf t (fst pn)) eqn:El; [apply IH; exact Hr|].
+    assert (Hc : add_genome (fst pn) gs = gs \/ add_genome (fst pn) gs = gs ++ [fst pn])
+      by (unfold add_genome; destruct (mem_tax _ _); auto).
+    destruct Hc as [-> | ->]; [apply IH; exact Hr|].
+    destruct (IH Hr (gs ++ [fst pn])) as (e & E & He). exists (fst pn :: e). rewrite E, <- app_assoc. split; [reflexivity|].
+    constructor; [split; assumption|exact He].
+Qed.
+
+Lemma sstep_genome_shape t fo s o :
+  (forall g1 g2, o = OLateral g1 g2 -> valid t g1 = true /\ In g1 (ss_genomes s)) ->
+  exists extra, ss_genomes (fst (sstep t fo s o)) = ss_genomes s ++ extra /\ Forall (anc_node t) extra.
+Proof.
+  intros Ha. assert (Hnil : exists extra, ss_genomes s = ss_genomes s ++ extra /\ Forall (anc_node t) extra)
+    by (exists []; rewrite app_nil_r; auto).
+  destruct o as [g1 g2|g1 g2| |p|oid]; simpl.
+  - destruct (taxon_eqb g1 g2); auto. destruct (orient g1 g2) as [[a d]|e]; auto.
+    unfold cached_map. destruct (map_get (a, d) (ss_maps s)); simpl; auto.
+  - destruct (Ha g1 g2 eq_refl) as (Hv & Hin). apply lateral_genome_shape; assumption.
+  - destruct (profile_full t fo); simpl; auto. unfold profile_maps. rewrite profile_maps_genomes.
+    apply profile_genome_shape. apply Forall_forall. intros pn Hpn. apply all_nodes_valid. apply in_map. exact Hpn.
+  - destruct (clust_get p (ss_clust s)); auto.
+  - destruct (vis_get oid (ss_vis s)); auto. destruct (find_hog fo oid); auto.
+Qed.
+
+(* the arguments of lateral comparisons are genomes that exist (arguments are drawn from the loaded objects) *)
+Definition args_ok (gs : list taxon) (ops : list op) : Prop :=
+  forall g1 g2, In (OLateral g1 g2) ops -> In g1 gs.
+
+Theorem srun_genome_shape t fo ops : forall s,
+  Forall (fun p => valid t p = true) (ss_genomes s) -> args_ok (ss_genomes s) ops ->
+  exists extra, ss_genomes (srun t fo ops s) = ss_genomes s ++ extra /\ Forall (anc_node t) extra.
+Proof.
+  induction ops as [|o r IH]; intros s Hv Ha; cbn [srun fold_left].
+  - exists []. rewrite app_nil_r. auto.
+  - destruct (sstep_genome_shape t fo s o) as (e1 & E1 & H1).
+    { intros g1 g2 ->. pose proof (Ha g1 g2 (or_introl eq_refl)) as Hin. split; [|exact Hin].
+      rewrite Forall_forall in Hv. apply Hv. exact Hin. }
+    destruct (IH (fst (sstep t fo s o))) as (e2 & E2 & H2).
+    + rewrite E1. apply Forall_app. split; [exact Hv|]. eapply Forall_impl; [|exact H1]. intros p Hp. apply Hp.
+    + intros g1 g2 Hin. rewrite E1. apply in_or_app. left. apply (Ha g1 g2). right. exact Hin.
+    + exists (e1 ++ e2). fold (srun t fo r (fst (sstep t fo s o))). rewrite E2, E1, <- app_assoc. split; [reflexivity|].
+      apply Forall_app. auto.
+Qed.
+
+Lemma filter_none {A} (f : A -> bool) l : Forall (fun x => f x = false) l -> filter f l = [].
+Proof. induction 1 as [|x l Hx _ IH]; simpl; [reflexivity|]. rewrite Hx. exact IH. Qed.
+
+Lemma filter_all {A} (f : A -> bool) l : Forall (fun x => f x = true) l -> filter f l = l.
+Proof. induction 1 as [|x l Hx _ IH]; simpl; [reflexivity|]. rewrite Hx, IH. reflexivity. Qed.
+
+Theorem extant_listing_stable t fo ops s :
+  Forall (fun p => valid t p = true) (ss_genomes s) -> args_ok (ss_genomes s) ops ->
+  extant_listing t (srun t fo ops s) = extant_listing t s.
+Proof.
+  intros Hv Ha. destruct (srun_genome_shape t fo ops s Hv Ha) as (e & E & He). unfold extant_listing.
+  rewrite E, filter_app, (filter_none _ e), app_nil_r; [reflexivity|].
+  eapply Forall_impl; [|exact He]. intros p Hp. apply Hp.
+Qed.
+
+Theorem ancestral_listing_grows t fo ops s :
+  Forall (fun p => valid t p = true) (ss_genomes s) -> args_ok (ss_genomes s) ops ->
+  exists extra, ancestral_listing t (srun t fo ops s) = ancestral_listing t s ++ extra /\ Forall (anc_node t) extra.
+Proof.
+  intros Hv Ha. destruct (srun_genome_shape t fo ops s Hv Ha) as (e & E & He). exists e. unfold ancestral_listing.
+  rewrite E, filter_app, (filter_all _ e); [auto|].
+  eapply Forall_impl; [|exact He]. intros p Hp. destruct Hp as [Hp _]. rewrite Hp. reflexivity.
+Qed.
